@@ -63,6 +63,6 @@ EqLaw == /\ l <= Len(Tr) /\ Tr[l].e = "eqlaw" /\ l' = l + 1 /\ UNCHANGED <<tid, 
 Next == TLCGet(BIG + tid) = 0 /\ (CallPut \/ RetPut \/ CallGet \/ RetGet \/ EqLaw \/ \E t \in AllThreads : LinPut(t) \/ LinGet(t))
 Spec == Init /\ [][Next]_vars
 
-Report == Progress(tid, l, Len(Tr)) /\ (l = Len(Tr) + 1 => ReportViol(tid, l, viol))
+Report == Progress(tid, l, Len(Tr), viol)
 PostCond == Post
 =============================================================================
